@@ -247,7 +247,64 @@ def check_case(case):
         negzero(r)
         trajectory_independence(r)
         constructed_route(r)
+        successors_keep_their_value(r)
+        parser_after_a_rejected_state(r)
     return r
+
+
+def successors_keep_their_value(r):
+    """a successor handed out by an operator is a value of its own: applying the same operator again (to that successor
+    or to another state) leaves it equal to the copy taken when it was produced"""
+    from pddl_plus_parser.multi_agent.common import create_initial_state
+    s = RefState([("p", "a")], {("f",): Fraction(1), ("g", "a"): Fraction(0), ("h", "a", "a"): Fraction(4)})
+    for call, args in (("set-g", ["a"]), ("set-h", ["a", "a"]), ("set-f", []), ("add-q", ["a", "b"])):
+        prob = parse_problem(ptext(s), D())
+        s0 = create_initial_state(prob)
+
+        def run():
+            op = operator(D(), call, args, prob.objects)
+            s1 = op.apply(s0)
+            kept, seen = s1.copy(), observe_state(s1)
+            s2 = op.apply(s1)
+            after_second = (kept == s1 and s1 == kept, observe_state(s1))
+            s3 = op.apply(s2)
+            ok = after_second[0] and kept == s1 and same_state(after_second[1], observe_state(s1))
+            return ok, seen, after_second[1], observe_state(s2)
+        got = guard(run)
+        r.count("transitions", 3)
+        if isinstance(got, Raised) or got[0] is not True or not same_state(got[1], got[2]):
+            r.fail("copy-independence", f"({call} {' '.join(args)}) applied by one operator to {s.to_json()}, to its successor and "
+                   f"to the first state again: the first successor read {show(got[1]) if not isinstance(got, Raised) else got} "
+                   f"when produced and reads {show(got[2]) if not isinstance(got, Raised) else ''} afterwards; == with the copy "
+                   f"taken then: {got[0] if not isinstance(got, Raised) else ''}", "unchanged", str(got)[:200],
+                   tags=["successor-aliasing", call])
+            return
+
+
+def parser_after_a_rejected_state(r):
+    """one TrajectoryParser: a state text that is rejected after some of its components were read (the caller catches
+    the error), then a valid state - which reads as exactly what its text says"""
+    from pddl_plus_parser.lisp_parsers import TrajectoryParser, PDDLTokenizer
+    good = RefState([("q", "a", "b"), ("r",)], {("f",): Fraction(3, 2), ("g", "b"): Fraction(-2)})
+    prob = parse_problem(ptext(good), D())
+    good_text = "(:state (q a b) (r) (= (f) 1.5) (= (g b) -2))"
+    bads = ["(:state (p a) (= (h a a) 7) (zz a))", "(:state (p b) (q a a) (= (g a) 1) (= (nofluent) 2))",
+            "(:state (p a) (q a))"]
+    for mode, pm in (("with-problem", prob), ("objects-deduced", None)):
+        for bad in bads:
+            def run():
+                tp = TrajectoryParser(D(), pm)
+                first = guard(lambda: tp.parse_state(PDDLTokenizer(pddl_str=bad).parse()[1:]))
+                st = tp.parse_state(PDDLTokenizer(pddl_str=good_text).parse()[1:])
+                return isinstance(first, Raised), observe_state(st)
+            got = guard(run)
+            r.count("transitions", 2)
+            if isinstance(got, Raised) or not same_state(got[1], good):
+                r.fail("serialize", f"[{mode}] one TrajectoryParser first given {bad} (rejected: "
+                       f"{got[0] if not isinstance(got, Raised) else got}), then {good_text}: the second state reads "
+                       f"{show(got[1]) if not isinstance(got, Raised) else got}", good.to_json(), str(got)[:300],
+                       tags=["parser-error-path", mode])
+                return
 
 
 def trajectory_independence(r):
